@@ -61,6 +61,8 @@ class BareMove:
             return 0
         if g(self, "kind") == "cell":
             atoms.set_cell(atoms.cell.array * 1.01, scale_atoms=True)
+        elif g(self, "kind") == "cell-tiny":  # a one-in-a-million strain (fine relaxation of the box)
+            atoms.set_cell(atoms.cell.array * (1.0 + 1e-6), scale_atoms=True)
         elif g(self, "kind") == "swap":
             # a user exchange move replacing a 1-atom particle by a 2-atom one: the particle number is
             # unchanged, the atom count is not (bookkeeping as the shipped exchange moves do it)
@@ -151,6 +153,8 @@ def specs(tier):
     add("GrandCanonical", [["e", "E_trans"], ["d", "D_ball"]])
     # volume-preserving cell changes, the same user object under two names, several cycles per step
     add("Isobaric", [], bare_kind="shear")
+    add("Isobaric", [], bare_kind="cell-tiny")
+    add("Isotension", [], bare_kind="cell-tiny")
     add("Isotension", [["s", "C_shape"]], bare_kind="shear")
     add("GrandCanonical", [["e", "E_trans"]], twice=True)
     add("GrandCanonical", [], in_composite="E")  # the user move sits inside a shipped composite with an exchange move
